@@ -468,7 +468,8 @@ func init() {
 			"vm.PageTable has no iterator: the final contents are the pre-inserted pages plus the Insert calls recorded by a forwarding wrapper, each cross-checked with Find on the real table",
 		},
 		Run: func(c *lib.Ctx) {
-			debug.SetGCPercent(800) // many tiny simulations; collect less often
+			debug.SetGCPercent(-1) // many tiny simulations: collect only when the heap reaches 256 MiB
+			debug.SetMemoryLimit(256 << 20)
 			lib.Cases(c, func(yield func(mmuCase) bool) { enumMMUCases(c.Thorough(), yield) }, func(cs mmuCase) (string, []lib.Problem) {
 				out, probs := runMMUCase(cs)
 				if strings.Contains(out, "retried=true") {
